@@ -1,5 +1,19 @@
 import Rosmar.Driver
+import Rosmar.Shutdown
 open Rosmar Rosmar.Driver
+
+/-- `sd acts=a,b,c` → the shutdown model's verdict; `sd locks=h1+h2>w;h>w` → whether those threads are deadlocked. -/
+def shutdownLine (l : Line) : String :=
+  if l.str "acts" ≠ "" then
+    match ((l.str "acts").splitOn ",").mapM Rosmar.Shutdown.parseAct with
+    | none => "r=model-unknown-act"
+    | some as => "r=ok verdict=" ++ Rosmar.Shutdown.verdict (Rosmar.Shutdown.run {} as)
+  else
+    let ts : List (Rosmar.Shutdown.Thread String) := ((l.str "locks").splitOn ";").map (fun t =>
+      match t.splitOn ">" with
+      | [h, w] => { held := (h.splitOn "+").filter (· ≠ ""), waits := some w }
+      | _ => { held := (t.splitOn "+").filter (· ≠ ""), waits := none })
+    s!"r=ok deadlock={Rosmar.Shutdown.deadlockedB ts}"
 
 inductive Mode where
   | kv (s : State)
@@ -22,6 +36,9 @@ partial def loop (h : IO.FS.Stream) (out : IO.FS.Stream) (m : Mode) : IO Unit :=
     else if l.op = "end" then
       out.putStrLn "end"
       loop h out (.kv initState)
+    else if l.op = "sd" then
+      out.putStrLn (shutdownLine l)
+      loop h out m
     else
       match m with
       | .life st =>
